@@ -452,7 +452,7 @@ def _r3(chk, repo):
     d = repo.cls("cuqi/experimental/mcmc/_direct.py:Direct")
     st = repo.method(d, "step")[1]
     from .common import method_effects
-    eff = method_effects(repo, d, st)
+    eff = method_effects(repo, d, st, level=2)          # private helpers inlined
     ok = len(eff) == 1 and eff[0]["kind"] == "return" and eff[0]["ret"] == "1" and eff[0]["stores"] == {"self.current_point": "self.target.sample()"} and not eff[0]["calls"]
     chk.add("C10-R3", f"{d.qual}.step", ok, site(repo, st), "current_point = target.sample()", f"Direct.step does {eff}", st)
 
@@ -533,6 +533,6 @@ def _r4(chk, repo):
     chk.add("C10-R4", f"{ga.qual}.@rank", not pr, site(repo, rp.getter if rp and rp.getter else ga.node), "Gaussian.rank is the count in Gaussian.logpdf's normalising constant", "; ".join(pr), None)
     step = repo.method(repo.cls(f"{EXP}:Conjugate"), "step")[1]
     from .common import method_effects
-    eff = method_effects(repo, repo.cls(f"{EXP}:Conjugate"), step)
+    eff = method_effects(repo, repo.cls(f"{EXP}:Conjugate"), step, level=2)          # private helpers inlined
     ok = len(eff) == 1 and eff[0]["kind"] == "return" and eff[0]["ret"] == "1" and eff[0]["stores"] == {"self.current_point": "self._conjugatepair.sample()"} and not eff[0]["calls"]
     chk.add("C10-R4", f"{EXP}:Conjugate.step", ok, site(repo, step), "current_point = pair.sample()", f"Conjugate.step does {eff}", step)
